@@ -322,10 +322,29 @@ func newFunctionCaller() *functionCaller {
 	return caller
 }
 
+// toGenericSlice converts a typed slice (for example []string or a slice of
+// structs) to []interface{}, the only slice type the handlers operate on.
+func toGenericSlice(arg interface{}) interface{} {
+	if _, ok := arg.([]interface{}); ok || !isSliceType(arg) {
+		return arg
+	}
+	v := reflect.ValueOf(arg)
+	converted := make([]interface{}, v.Len())
+	for i := range converted {
+		converted[i] = v.Index(i).Interface()
+	}
+	return converted
+}
+
 func (e *functionEntry) resolveArgs(arguments []interface{}) ([]interface{}, error) {
 	if len(e.arguments) == 0 {
 		return arguments, nil
 	}
+	generic := make([]interface{}, len(arguments))
+	for i, arg := range arguments {
+		generic[i] = toGenericSlice(arg)
+	}
+	arguments = generic
 	if !e.arguments[len(e.arguments)-1].variadic {
 		if len(e.arguments) != len(arguments) {
 			return nil, errors.New("incorrect number of args")
